@@ -41,3 +41,30 @@ package tx_pool
 //@   opt noinline
 //@   opt assumecallreqs
 //@   atcall TxPool.validateTx requires [nothingMarkedLocalBeforeValidation] pool.locals == old(pool.locals) && (forall a common.Address :: has(pool.locals.accounts, a) == old(has(pool.locals.accounts, a)))
+
+// ---------------------------------------------------------------- C17: what an accepted submission satisfies
+// Number of non-zero bytes among the first n.
+//@ spec func nzCount(data []byte, n int) int = ite(n <= 0, 0, nzCount(data, n-1) + ite(data[n-1] != 0, 1, 0))
+// IntrinsicGas: the base fee of the transaction kind plus 68 per non-zero and 4 per zero data byte,
+// computed without wrap-around (an overflow is reported as an error).
+//@ func IntrinsicGas(data []byte, contractCreation bool, legacy bool) (r uint64, err error)
+//@   for C17 C09
+//@   nooverflow
+//@   ensures [exact] err == nil ==> r == ite(contractCreation, 53000, ite(legacy, 29000, 21000)) + 68 * nzCount(data, len(data)) + 4 * (len(data) - nzCount(data, len(data)))
+//@   ensures [errorOnlyOnOverflow] err != nil ==> ite(contractCreation, 53000, ite(legacy, 29000, 21000)) + 68 * nzCount(data, len(data)) + 4 * (len(data) - nzCount(data, len(data))) > 18446744073709551615
+//@   loop 1:
+//@     invariant 0 <= iter && iter <= len(data) && nz == nzCount(data, iter) && 0 <= nz && nz <= iter
+
+// validateTx returns nil only for a transaction that fits the block gas limit, has a non-negative
+// value, meets the pool's price floor unless local, has a nonce not below the sender's state nonce,
+// is affordable from the sender's balance (value plus maximum fee) and pays for its intrinsic gas.
+//@ func (pool *TxPool) validateTx(tx *types.Transaction, local bool) (err error)
+//@   for C17
+//@   requires pool != nil && tx != nil && pool.gasPrice != nil
+//@   modifies *
+//@   ensures [fitsBlockGasLimit] err == nil ==> types.txGas(tx) <= pool.currentMaxGas
+//@   ensures [nonNegativeValue] err == nil ==> types.txValue(tx) >= 0
+//@   ensures [remotePriceFloor] err == nil && !local ==> types.gpOf(tx) >= pool.gasPrice.v
+//@   ensures [nonceNotStale] err == nil ==> state.stNonce(pool.currentState, from) <= types.txNonce(tx)
+//@   ensures [affordable] err == nil ==> state.stBal(pool.currentState, from) >= types.txCost(tx)
+//@   ensures [paysIntrinsicGas] err == nil ==> types.txGas(tx) >= intrGas
